@@ -172,6 +172,7 @@ func (st *State) exec(th *Thread, fr *Frame, in ssa.Instruction) stepStatus {
 		switch v := xv.(type) {
 		case MapV:
 			it := &MapIter{M: v.M}
+			st.mapRace(v.M, false)
 			if v.M != nil {
 				it.Order = st.mapOrder(v.M)
 			}
@@ -1021,6 +1022,15 @@ func (st *State) builtinAppend(s SliceV, add Value, elemT types.Type) SliceV {
 
 // ---------- maps ----------
 
+func (st *State) mapRace(m *MapObj, write bool) {
+	if st.eng.cfg.Race && m != nil {
+		if m.shadow == nil {
+			m.shadow = st.newObject(st.tt.Const(0, 8), nil, "map")
+		}
+		st.raceAccess(Ptr{Obj: m.shadow}, write)
+	}
+}
+
 func (st *State) mapFind(m *MapObj, k Value) int {
 	for i, e := range m.Entries {
 		c := st.eqValue(k, e.K)
@@ -1032,6 +1042,7 @@ func (st *State) mapFind(m *MapObj, k Value) int {
 }
 
 func (st *State) mapSet(m *MapObj, k, v Value) {
+	st.mapRace(m, true)
 	if i := st.mapFind(m, k); i >= 0 {
 		m.Entries[i] = mapEntry{K: m.Entries[i].K, V: copyValue(v)}
 		return
@@ -1043,6 +1054,7 @@ func (st *State) mapDelete(m *MapObj, k Value) {
 	if m == nil {
 		return
 	}
+	st.mapRace(m, true)
 	if i := st.mapFind(m, k); i >= 0 {
 		m.Entries = append(append([]mapEntry{}, m.Entries[:i]...), m.Entries[i+1:]...)
 	}
@@ -1081,6 +1093,7 @@ func (st *State) execLookup(fr *Frame, x *ssa.Lookup) {
 		k := st.eval(fr, x.Index)
 		var v Value
 		found := false
+		st.mapRace(s.M, false)
 		if s.M != nil {
 			if i := st.mapFind(s.M, k); i >= 0 {
 				v = copyValue(s.M.Entries[i].V)
@@ -1325,6 +1338,7 @@ func (st *State) callBuiltin(th *Thread, fr *Frame, b *ssa.Builtin, args []Value
 			if v.M == nil {
 				return tt.Const(0, 64)
 			}
+			st.mapRace(v.M, false)
 			return tt.Const(uint64(len(v.M.Entries)), 64)
 		case ChanV:
 			if v.C == nil {
